@@ -25,7 +25,7 @@ ANN = {
 
 
 @st.composite
-def signature(draw, allow_catch_all=True, allow_deps=True):
+def signature(draw, allow_catch_all=True, allow_deps=True, allow_field=False):
     n = draw(st.integers(0, 5))
     names = draw(st.lists(st.sampled_from(NAMES), min_size=n, max_size=n, unique=True))
     var_args = allow_catch_all and draw(st.integers(0, 3)) == 0
@@ -38,6 +38,9 @@ def signature(draw, allow_catch_all=True, allow_deps=True):
         p = {"name": nm, "kind": kind, "ann": ann, "has_default": has_default}
         if has_default:
             p["default"] = draw(ANN[ann])
+            if allow_field and ann is not None and draw(st.integers(0, 2)) == 0:
+                # the default declared the pydantic way: Field(default=...) / Field(default_factory=...)
+                p["field"] = "factory" if isinstance(p["default"], (list, dict)) and draw(st.booleans()) else "default"
         params.append(p)
     order = {"po": 0, "pk": 1, "ko": 2}
     params.sort(key=lambda p: order[p["kind"]])
@@ -62,7 +65,11 @@ def source(sig: dict, fname: str = "actor", ret_ann: Optional[str] = None) -> st
         s = p["name"]
         if p["ann"]:
             s += f": {p['ann']}"
-        if p["has_default"]:
+        if p["has_default"] and p.get("field") == "factory":
+            s += f" = Field(default_factory=lambda: {p['default']!r})"
+        elif p["has_default"] and p.get("field"):
+            s += f" = Field(default={p['default']!r})"
+        elif p["has_default"]:
             s += f" = {p['default']!r}" if p["ann"] else f"={p['default']!r}"
         return s
 
@@ -103,7 +110,9 @@ def compile_actor(sig: dict, rec: list, ret: list, ret_ann: Optional[str] = None
     async def provider() -> str:
         return "provided"
 
-    ns: dict = {"MessageDependency": MessageDependency, "Depends": Depends, "Annotated": Annotated, "Optional": Optional,
+    from pydantic import Field
+
+    ns: dict = {"MessageDependency": MessageDependency, "Depends": Depends, "Annotated": Annotated, "Optional": Optional, "Field": Field,
                 "REC": rec, "RET": ret, "provider": provider}
     src = source(sig, ret_ann=ret_ann)
     exec(compile(src, "<generated-actor>", "exec"), ns)  # noqa: S102
@@ -137,7 +146,7 @@ def payload_for(draw, sig: dict):
 @st.composite
 def bind_case(draw, converter):
     catch = converter == "basic"
-    sig = draw(signature(allow_catch_all=catch))
+    sig = draw(signature(allow_catch_all=catch, allow_field=(converter == "pydantic")))
     payload, mode = draw(payload_for(sig))
     return {"converter": converter, "sig": sig, "payload": payload, "mode": mode}
 
@@ -356,7 +365,7 @@ def run_output(case: dict) -> Outcome:
 @st.composite
 def worker_case(draw):
     conv = draw(st.sampled_from(["basic", "basic", "pydantic", "default"]))
-    sig = draw(signature(allow_catch_all=(conv == "basic")))
+    sig = draw(signature(allow_catch_all=(conv == "basic"), allow_field=(conv != "basic")))
     payload, mode = draw(payload_for(sig))
     return {"converter": conv, "sig": sig, "payload": payload, "mode": mode, "seed": draw(st.integers(0, 999))}
 
